@@ -8,7 +8,7 @@ use sfs_core::{
 };
 
 use crate::{
-    cli::{parse_text_spectrum, run_sfs, Out, Scratch, Stdin},
+    cli::{parse_text_spectrum, run_sfs, run_sfs_transport, Out, Scratch, Stdin, Transport},
     createmodel::Cls,
     enumerate::shapes,
     gen::{to_vcf, CallSet},
@@ -196,6 +196,7 @@ struct Pipe {
     sink: &'static str,     // stdout | file | file-reused
     consumer: usize,
     spectrum: usize,
+    transport: Transport, // how the consumer receives what the producer wrote
 }
 
 const CONSUMERS: [&[&str]; 3] = [&["view", "--precision", "6"], &["fold", "--fill", "zero"], &["stat", "-s", "sum", "--precision", "6"]];
@@ -286,6 +287,7 @@ fn eval_pipe(p: &Pipe, scratch: &Scratch) -> Option<Viol> {
             ("sink", J::s(p.sink)),
             ("consumer", J::strs(CONSUMERS[p.consumer])),
             ("spectrum", J::u(p.spectrum)),
+            ("transport", J::s(p.transport.name())),
             ("produced_bytes", bytes_j(&prod_out.stdout[..prod_out.stdout.len().min(600)])),
         ])
     };
@@ -296,10 +298,11 @@ fn eval_pipe(p: &Pipe, scratch: &Scratch) -> Option<Viol> {
             case(),
         ));
     }
-    let o = run_sfs(CONSUMERS[p.consumer], Stdin::Bytes(&prod_out.stdout), scratch);
+    let suffix = if p.format == "npy" { ".npy" } else { ".sfs" };
+    let o = run_sfs_transport(CONSUMERS[p.consumer], &prod_out.stdout, p.transport, suffix, scratch);
     if !o.ok() {
         return Some((
-            format!("C07|cli|written-file-rejected|{}-{}-{}|{}", p.producer, p.format, p.sink, CONSUMERS[p.consumer][0]),
+            format!("C07|cli|written-file-rejected|{}-{}-{}|{}|{}", p.producer, p.format, p.sink, CONSUMERS[p.consumer][0], p.transport.name()),
             format!("{p:?}: consumer rejected what the producer wrote: {} {}", o.status_str(), o.stderr_str()),
             case(),
         ));
@@ -316,11 +319,100 @@ fn eval_pipe(p: &Pipe, scratch: &Scratch) -> Option<Viol> {
             (a.is_nan() && b.is_nan()) || (a - b).abs() <= 1.01e-6 * (1.0 + expect.len() as f64) || same_f64(*a, *b)
         }) => None,
         other => Some((
-            format!("C07|cli|values-differ|{}-{}-{}|{}", p.producer, p.format, p.sink, CONSUMERS[p.consumer][0]),
+            format!("C07|cli|values-differ|{}-{}-{}|{}|{}", p.producer, p.format, p.sink, CONSUMERS[p.consumer][0], p.transport.name()),
             format!("{p:?}: consumer printed {other:?}, expected {expect:?}"),
             case(),
         )),
     }
+}
+
+// size ladder: spectra whose serialised form crosses internal buffer sizes (4 KiB .. tens of MiB)
+
+fn big_array(shape: &[usize]) -> RefArray {
+    // pairwise different, exactly representable at one decimal, so a dropped, glued or repeated value is visible
+    RefArray::from_fn(shape, |f, _| f as f64 + 0.5)
+}
+
+fn big_case(shape: &[usize], p: usize, what: &str) -> J {
+    J::obj([("kind", J::s("c07-big")), ("shape", J::usizes(shape)), ("precision", J::u(p)), ("what", J::s(what))])
+}
+
+fn first_diff(a: &[f64], b: &[f64]) -> Option<usize> {
+    if a.len() != b.len() {
+        return Some(a.len().min(b.len()));
+    }
+    a.iter().zip(b).position(|(x, y)| x.to_bits() != y.to_bits())
+}
+
+fn check_big(shape: &[usize], p: usize, scratch: &Scratch) -> (u64, Vec<Viol>) {
+    let x = big_array(shape);
+    let mut viols = Vec::new();
+    let mut evals = 0;
+    let cells = x.data.len();
+    // L1: both formats through the real writer and the real auto-detecting reader
+    for (fmt, name, suffix) in [(Format::Text, "text", ".sfs"), (Format::Npy, "npy", ".npy")] {
+        evals += 1;
+        match write_real(&x, fmt, p) {
+            Ok(bytes) => {
+                let path = scratch.file(suffix, &bytes);
+                match read_real_path(&path) {
+                    Ok(r) if r.shape == x.shape && first_diff(&r.data, &x.data).is_none() => {}
+                    Ok(r) => viols.push((
+                        format!("C07|lib|big-{name}-roundtrip-differs"),
+                        format!("{name} round trip of shape {shape:?} ({cells} cells, {} bytes) at precision {p}: shape {:?}, first differing value at {:?}", bytes.len(), r.shape, first_diff(&r.data, &x.data)),
+                        big_case(shape, p, name),
+                    )),
+                    Err(e) => viols.push((
+                        format!("C07|lib|big-{name}-not-read-back|{}", norm_msg(&e)),
+                        format!("{name} written for shape {shape:?} ({cells} cells, {} bytes) at precision {p} is not read back: {e}", bytes.len()),
+                        big_case(shape, p, name),
+                    )),
+                }
+                let _ = fs::remove_file(path);
+            }
+            Err(e) => viols.push((format!("C07|lib|big-{name}-write-failed|{}", norm_msg(&e)), format!("writing {name} for shape {shape:?} failed: {e}"), big_case(shape, p, name))),
+        }
+    }
+    // L2: text -> `view` (text) -> `view -O npy` -> `view` (text), each hop through a real pipe
+    let ps = p.to_string();
+    let t0 = text_of(&x);
+    let o1 = run_sfs_transport(&["view", "--precision", &ps], t0.as_bytes(), Transport::StdinPipe, ".sfs", scratch);
+    let o2 = if o1.ok() { run_sfs_transport(&["view", "-O", "npy"], &o1.stdout, Transport::StdinPipe, ".sfs", scratch) } else { o1.clone() };
+    let o3 = if o2.ok() { run_sfs_transport(&["view", "--precision", &ps], &o2.stdout, Transport::PathFifo, ".npy", scratch) } else { o2.clone() };
+    evals += 3;
+    if !(o1.ok() && o2.ok() && o3.ok()) {
+        let stage = if !o1.ok() { "text->text" } else if !o2.ok() { "text->npy" } else { "npy->text" };
+        let bad = if !o1.ok() { &o1 } else if !o2.ok() { &o2 } else { &o3 };
+        viols.push((
+            format!("C07|cli|big-chain-rejected|{stage}"),
+            format!("shape {shape:?} ({cells} cells) precision {p}: stage {stage} failed: {} {}", bad.status_str(), bad.stderr_str().chars().take(300).collect::<String>()),
+            big_case(shape, p, "cli"),
+        ));
+    } else {
+        for (name, o) in [("text->text", &o1), ("npy->text", &o3)] {
+            match crate::subject::parse_out(o) {
+                Ok(r) if r.shape == x.shape && first_diff(&r.data, &x.data).is_none() => {}
+                Ok(r) => viols.push((
+                    format!("C07|cli|big-values-differ|{name}"),
+                    format!("shape {shape:?} ({cells} cells) precision {p}: after {name} shape {:?}, first differing value at {:?}", r.shape, first_diff(&r.data, &x.data)),
+                    big_case(shape, p, "cli"),
+                )),
+                Err(e) => viols.push((
+                    format!("C07|cli|big-output-unparsable|{name}"),
+                    format!("shape {shape:?} ({cells} cells) precision {p}: after {name}: {}", e.chars().take(300).collect::<String>()),
+                    big_case(shape, p, "cli"),
+                )),
+            }
+        }
+        if o1.stdout != o3.stdout {
+            viols.push((
+                "C07|cli|big-text-npy-text-differs".into(),
+                format!("shape {shape:?} ({cells} cells) precision {p}: text -> npy -> text is not byte-identical"),
+                big_case(shape, p, "cli"),
+            ));
+        }
+    }
+    (evals, viols)
 }
 
 // text -> npy -> text at equal precision
@@ -368,7 +460,7 @@ fn eval_text_npy_text(exp: i32, p: usize, scratch: &Scratch) -> (u64, Option<Vio
 
 pub fn run(tier: Tier) -> i32 {
     let mut rep = Report::new("C07", tier, "exploration");
-    rep.rule = "L1: every shape with 1..6 axes, lengths 1..4 and <=24 cells, filled cyclically from a 16-value special alphabet (+-0, subnormal, huge, NaN incl. a signalling payload, +-inf, 1/3, ...) x precision 0..17 x {text, npy}: write with io::write::Builder, read back with Array::read_npy and the auto-detecting io::read::Builder; npy bit-identical, text within half a unit of the p-th decimal (+ half an ulp for the decimal->binary step). L2: full matrix producer{create,view,fold} x format x sink{stdout, -o fresh file, -o over a longer existing file} x consumer{view,fold,stat} x 6 spectra; text->npy->text token identity for all 3-digit mantissas x exponents -6..6 x precisions {0,3,6,9} on tokens with <=15 significant digits. Non-trivial = non-finite or subnormal values, >=3 axes, npy, or a reused output file.".into();
+    rep.rule = "L1: every shape with 1..6 axes, lengths 1..4 and <=24 cells, filled cyclically from a 16-value special alphabet (+-0, subnormal, huge, NaN incl. a signalling payload, +-inf, 1/3, ...) x precision 0..17 x {text, npy}: write with io::write::Builder, read back with Array::read_npy and the auto-detecting io::read::Builder; npy bit-identical, text within half a unit of the p-th decimal (+ half an ulp for the decimal->binary step). L2: full matrix producer{create,view,fold} x format x sink{stdout, -o fresh file, -o over a longer existing file} x consumer{view,fold,stat} x consumer transport{stdin file, stdin pipe, path, FIFO path, /dev/stdin} x 6 spectra; a size ladder of spectra whose text form crosses 4 KiB .. 16 MiB through both formats and both layers; text->npy->text token identity for all 3-digit mantissas x exponents -6..6 x precisions {0,3,6,9} on tokens with <=15 significant digits. Non-trivial = non-finite or subnormal values, >=3 axes, npy, or a reused output file.".into();
 
     let scratch = Scratch::new("c07");
     let shp = shapes(6, 1, 4, 24);
@@ -428,12 +520,14 @@ pub fn run(tier: Tier) -> i32 {
     // L2 matrix
     let mut pipes: Vec<Pipe> = Vec::new();
     for consumer in 0..3 {
-        pipes.push(Pipe { producer: "create", format: "text", sink: "stdout", consumer, spectrum: 0 });
-        for spectrum in 0..l2_spectra().len() {
-            for sink in ["stdout", "file", "file-reused"] {
-                pipes.push(Pipe { producer: "fold", format: "text", sink, consumer, spectrum });
-                for format in ["text", "npy"] {
-                    pipes.push(Pipe { producer: "view", format, sink, consumer, spectrum });
+        for transport in Transport::ALL {
+            pipes.push(Pipe { producer: "create", format: "text", sink: "stdout", consumer, spectrum: 0, transport });
+            for spectrum in 0..l2_spectra().len() {
+                for sink in ["stdout", "file", "file-reused"] {
+                    pipes.push(Pipe { producer: "fold", format: "text", sink, consumer, spectrum, transport });
+                    for format in ["text", "npy"] {
+                        pipes.push(Pipe { producer: "view", format, sink, consumer, spectrum, transport });
+                    }
                 }
             }
         }
@@ -446,7 +540,7 @@ pub fn run(tier: Tier) -> i32 {
         name: "cli: producer x format x sink x consumer".into(),
         evaluations: pipes.len() as u64,
         nontrivial: pipes.iter().filter(|p| p.format == "npy" || p.sink == "file-reused" || p.producer == "fold" || p.spectrum >= 2).count() as u64,
-        note: "every combination; fold produces NaN cells; `-o` onto a fresh path and onto a longer pre-existing file".into(),
+        note: "every combination; fold produces NaN cells; `-o` onto a fresh path and onto a longer pre-existing file; the consumer reads from stdin (regular file / real pipe) or from a path (regular file / FIFO / /dev/stdin over a pipe)".into(),
         exhaustive: true,
         extra: vec![],
     });
@@ -454,6 +548,36 @@ pub fn run(tier: Tier) -> i32 {
         ("pipeline", J::s("sfs view -O npy -o <existing longer file> < 3x4 text | sfs fold --fill zero")),
         ("expected", J::s("consumer exits 0 with auto-detected format and reproduces the folded values")),
     ]));
+
+    // size ladder
+    let mut ladder: Vec<Vec<usize>> = vec![
+        vec![600], vec![30, 40], vec![2, 3, 500], vec![8000], vec![20, 20, 20], vec![100, 100], vec![70000], vec![150000], vec![300, 500],
+    ];
+    if tier.thorough() {
+        ladder.extend([vec![1_200_000], vec![100, 100, 100], vec![3, 700, 700]]);
+    }
+    let mut bjobs = Vec::new();
+    for sh in &ladder {
+        for p in [1usize, 6] {
+            bjobs.push((sh.clone(), p));
+        }
+    }
+    let res = par_map(bjobs.len(), |i| check_big(&bjobs[i].0, bjobs[i].1, &scratch));
+    let mut bev = 0;
+    for (e, v) in res {
+        bev += e;
+        for (k, w, j) in v {
+            rep.violation(k, w, j);
+        }
+    }
+    rep.part(Part {
+        name: "lib+cli: size ladder".into(),
+        evaluations: bev,
+        nontrivial: bev,
+        note: format!("{} shapes with {} .. {} cells x precision {{1,6}}: write/read of both formats at L1, and text -> view -> view -O npy -> view (real pipes and a FIFO) at L2, every value compared exactly", ladder.len(), ladder.iter().map(|s| s.iter().product::<usize>()).min().unwrap(), ladder.iter().map(|s| s.iter().product::<usize>()).max().unwrap()),
+        exhaustive: true,
+        extra: vec![("cells".into(), J::Arr(ladder.iter().map(|s| J::u(s.iter().product::<usize>())).collect()))],
+    });
 
     // text -> npy -> text
     let mut tnt = Vec::new();
@@ -495,6 +619,7 @@ pub fn replay(case: &J) -> Option<Vec<String>> {
             case.get("precision")?.as_i64()? as usize,
             &scratch,
         ))),
+        "c07-big" => Some(fmt(check_big(&case.get("shape")?.as_usizes()?, case.get("precision")?.as_i64()? as usize, &scratch).1)),
         "c07-tnt" => Some(fmt(
             eval_text_npy_text(case.get("exponent")?.as_i64()? as i32, case.get("precision")?.as_i64()? as usize, &scratch)
                 .1
@@ -510,6 +635,7 @@ pub fn replay(case: &J) -> Option<Vec<String>> {
                 sink: leak(case.get("sink")?.as_str()?),
                 consumer: CONSUMERS.iter().position(|c| c[0] == cons)?,
                 spectrum: case.get("spectrum")?.as_i64()? as usize,
+                transport: case.get("transport").and_then(|t| t.as_str()).and_then(Transport::from_name).unwrap_or(Transport::StdinFile),
             };
             Some(fmt(eval_pipe(&p, &scratch).into_iter().collect()))
         }
